@@ -849,6 +849,14 @@ impl<'a> RepositoryUpdate<'a> {
         ) {
             Ok(Some(notify)) => notify,
             Ok(None) => {
+                // Not Modified. That only tells us something if we
+                // actually have a copy the server could be referring to.
+                if current.is_none() {
+                    self.log.warn(format_args!(
+                        "Not modified response without a local copy."
+                    ));
+                    return Ok(false)
+                }
                 self.not_modified(current)?;
                 return Ok(true)
             }
